@@ -916,6 +916,9 @@ func (vf *VerifyFunc) builtin(st *State, fr *Frame, in ssa.Instruction, name str
 		st.assume("(>= " + r + " 0)")
 		return intVal(r)
 	case "delete":
+		if len(cc.Args) > 0 {
+			vf.guardCheck(st, fr, cc.Args[0], true, in)
+		}
 		m, k := args[0], args[1]
 		mt := m.T.Underlying().(*types.Map)
 		ks := sortOf(mt.Key())
